@@ -198,8 +198,14 @@ void Terminal::Impl::executeExitCmd(SessionContext *s, const Args &)
 
     //! capture the token, not the pointer: the session may be gone when this runs
     auto token = s->token;
-    wp_loop_->runNext(
+
+    //! one queued exit task per session is enough; it is remembered so that ~Impl() can cancel it
+    if (exit_tasks_.find(token) != exit_tasks_.end())
+        return;
+
+    exit_tasks_[token] = wp_loop_->runNext(
         [this, token] {
+            exit_tasks_.erase(token);
             auto s = sessions_.at(token);
             if (s == nullptr)
                 return;
